@@ -691,7 +691,14 @@ static Token *subst(Token *tok, MacroArg *args) {
     // Handle a macro token. Macro arguments are completely macro-expanded
     // before they are substituted into a macro body.
     if (arg) {
-      Token *t = preprocess2(arg->tok);
+      // preprocess2() relinks the tokens it is given, so expand a copy:
+      // the argument may be needed again, unexpanded, for # or ##.
+      Token copy = {};
+      Token *last = &copy;
+      for (Token *a = arg->tok; a; a = a->next)
+        last = last->next = copy_token(a);
+
+      Token *t = preprocess2(copy.next);
       t->at_bol = tok->at_bol;
       t->has_space = tok->has_space;
       for (; t->kind != TK_EOF; t = t->next)
